@@ -152,6 +152,8 @@ def bg_correct(check, prog, canon):
             zf = calls_in(holo, IP + 'zero_filter')
             if zf and as_difference(zf[0][2][0]) is not None:
                 df = as_difference(zf[0][2][0])[1]
+                while df[0] == 'attr' and df[2] in ('values', 'data'):
+                    df = df[1]       # the bare numbers of the dark field
         mode = 'dark field given' if given else 'default dark field'
         if df is None:
             check.bad('T3-bg-correct', 'bg_correct [%s]' % mode,
@@ -160,9 +162,81 @@ def bg_correct(check, prog, canon):
         want = intern(('bin', '/', ('bin', '-', raw, df),
                        ('call', IP + 'zero_filter', (('bin', '-', bg, df),), ())))
         c0 = Canon()
-        check.require(c0.equal(holo, want), 'T3-bg-correct', 'bg_correct [%s]' % mode,
+
+        def bare(t):
+            # the numbers of an image: x.values, np.asarray(x) -> x
+            if not isinstance(t, tuple) or not t or not isinstance(t[0], str):
+                return tuple(bare(x) if isinstance(x, tuple) else x for x in t) \
+                    if isinstance(t, tuple) else t
+            if t[0] == 'attr' and t[2] in ('values', 'data'):
+                return bare(t[1])
+            if t[0] == 'call' and t[1] in ('numpy.asarray', 'numpy.array') and \
+                    len(t[2]) == 1 and not t[3]:
+                return bare(t[2][0])
+            return tuple(bare(x) if isinstance(x, tuple) else x for x in t)
+        check.require(c0.equal(intern(bare(holo)), intern(bare(want))), 'T3-bg-correct',
+                      'bg_correct [%s]' % mode,
                       '(raw - df) / zero_filter(bg - df)', loc,
                       fail_detail='computes %s' % c0.show(holo)[:200])
+        # ... pixel by pixel: the guard compares shape and spacing only, so the
+        # three images may sit on different coordinates (a cropped hologram and a
+        # pre-cropped background; another z).  Arithmetic between two *labelled*
+        # arrays aligns them by coordinate label and keeps the overlap: unless the
+        # guard also compares the coordinates, every operation that joins two
+        # different images must have the bare numbers on one side
+        imgs = {raw: 'raw', bg: 'bg'}
+        if given:
+            imgs[df] = 'df'
+
+        def labelled(t):
+            """images whose coordinate labels the value of t carries"""
+            if t in imgs:
+                return {imgs[t]}
+            if not given and df is not None and t == df:
+                return {'raw'}           # zeros in a copy of raw: raw's labels
+            if t[0] == 'attr' and t[2] in ('values', 'data'):
+                return set()
+            if t[0] == 'call' and t[1] in ('numpy.asarray', 'numpy.array'):
+                return set()
+            if t[0] == 'call' and t[1] == IP + 'zero_filter' and t[2]:
+                return labelled(t[2][0])
+            if t[0] == 'bin':
+                return labelled(t[2]) | labelled(t[3])
+            if t[0] == 'un':
+                return labelled(t[2])
+            return set()
+        joins = []
+
+        def walk(t):
+            if t[0] == 'bin':
+                a, b = labelled(t[2]), labelled(t[3])
+                if a and b and a != b:
+                    joins.append((sorted(a), sorted(b), t))
+                walk(t[2])
+                walk(t[3])
+            elif t[0] == 'un':
+                walk(t[2])
+            elif t[0] == 'call' and t[1] == IP + 'zero_filter' and t[2]:
+                walk(t[2][0])
+        walk(holo)
+        guard_has_coords = any(
+            any(x[0] == 'attr' and x[2] in ('coords', 'x', 'y', 'z', 'indexes') or
+                (x[0] == 'call' and isinstance(x[1], str) and
+                 x[1].split('.')[-1] in ('equals', 'identical', 'array_equal'))
+                for x in subterms(t))
+            for o in res.raises for t, pol in o.cond)
+        check.require(guard_has_coords or not joins, 'T3-bg-correct-pixelwise',
+                      'bg_correct [%s]' % mode,
+                      'images are combined pixel by pixel: no operation aligns two '
+                      'different images by their coordinate labels (or the guard '
+                      'compares the coordinates)', loc,
+                      fail_detail='%s joins the labelled images %s and %s: xarray '
+                      'keeps only the coordinates they share -- a raw image cropped '
+                      'with subimage and a pre-cropped background of the same shape '
+                      'and spacing give a smaller result with the wrong pixels '
+                      'paired; a different z gives an empty one' % (
+                          show(joins[0][2])[:80], joins[0][0], joins[0][1])
+                      if joins else '')
         if not given:
             root = df
             while root[0] == 'upd':
